@@ -5,6 +5,7 @@ from ..astx import (calls_in, dotted, norm, src, iter_nodes, assigned_targets, a
                     const_value, is_const, parent_chain)
 from ..lib import (call_arg, relation, truth, other, cmp_views, core, holds_region, conditions, found_test, found_tests, path_tests, entails_empty, paths_entail_empty, eval_conditions, relation_tests, atom_key, expand_condition, mode_mismatch_conditions, is_bytes_mode_text_guard, cfg_nodes_with_call, node_calls, returns, raises, raised_class, stmt_assigns_attr, callee_last,
                    is_name, node_roots, guard_region, compare_parts, find_test_nodes)
+from ..lib import *      # noqa: F401,F403  (path-condition helpers)
 from ..linear import ctext
 from ..loader import AnalysisError
 
@@ -71,7 +72,7 @@ def run(R):
             c.check(okc, f, k, 'the pattern text is converted with utf-8', witness=norm(a), kind='ast', tag='utf8:' + norm(a)[:20])
         rets = returns(f)
         last = [r for r in rets if is_name(r.ast.value, rp)]
-        c.check(len(last) == 1, f, last[0].ast if last else None, 'a pattern already of the right type is returned unchanged', kind='ast', tag='passthrough')
+        c.check(len(last) >= 1 and len(returns(f)) == len(last) + 2, f, last[0].ast if last else None, 'a pattern already of the right type is returned unchanged', kind='ast', tag='passthrough')
         pvn = [n2.targets[0].id for n2 in iter_nodes(f.node) if isinstance(n2, ast.Assign) and isinstance(n2.targets[0], ast.Name) and norm(n2.value) == '%s.pattern' % rp]
         pv_ = pvn[0] if pvn else 'p'
         conds = {}
@@ -93,7 +94,7 @@ def run(R):
                 witness=norm(ks[0]) if ks else '', kind='ast', tag='ascii')
         got = conditions(g, g.node_for(ks[0])) if ks else None
         rr = [r for r in returns(f) if is_name(r.ast.value, f.params[1])]
-        c.check(got == mode_mismatch_conditions(f.params[1], True) and len(rr) == 1 and len(returns(f)) == 2 and not raises(f), f, ks[0] if ks else None,
+        c.check(got == mode_mismatch_conditions(f.params[1], True) and len(rr) >= 1 and len(returns(f)) == len(rr) + 1 and not raises(f), f, ks[0] if ks else None,
                 'only non-bytes given to a bytes-mode object are converted', witness='converted under %s' % sorted(got or []), kind='path', tag='guard')
         f = repo.func('spawnbase:SpawnBase.read')
         ks = [k for k in calls_in(f.node) if dotted(k.func) == 're.compile']
@@ -127,19 +128,21 @@ def flag_bit(e, rp, bit, inp):
     raise ValueError(t)
 
 
-def classify_test(t, pv):
-    s = norm(t)
-    if s == 'isinstance(%s, self.allowed_string_types)' % pv:
+def classify_atom(a, pv):
+    """kind of pattern an atomic condition (normal form of lib.atom_key) recognises"""
+    if a == 'isinstance(%s, self.allowed_string_types)' % pv:
         return 'TEXT'
-    if s in ('%s is EOF' % pv, '%s == EOF' % pv):
-        return 'EOF'
-    if s in ('%s is TIMEOUT' % pv, '%s == TIMEOUT' % pv):
-        return 'TIMEOUT'
-    if s.startswith('isinstance(%s, type(re.compile(' % pv) or s in ('isinstance(%s, re.Pattern)' % pv,):
+    for m in ('EOF', 'TIMEOUT'):
+        if a in ('%s is %s' % (pv, m), '%s is %s' % (m, pv), '%s == %s' % (pv, m), '%s == %s' % (m, pv)):
+            return m
+    if a.startswith('isinstance(%s, type(re.compile(' % pv) or a == 'isinstance(%s, re.Pattern)' % pv:
         return 'REGEX'
-    if s in ('%s in (TIMEOUT, EOF)' % pv, '%s in (EOF, TIMEOUT)' % pv):
-        return 'MARKER'
     return None
+
+
+def classify_test(t, pv):
+    a, v = atom_key(t)
+    return classify_atom(a, pv) if v else None
 
 
 def check_cpl(c, repo):
@@ -210,27 +213,48 @@ def check_exact(c, repo):
     c.need(h is not None, 'expect_exact: prepare_pattern helper not found')
     hg = h.cfg
     pv = h.params[0]
-    tests = sorted([t for t in hg.nodes if t.kind == 'test'], key=lambda t: t.id)
-    kinds = [classify_test(t.ast, pv) for t in tests]
-    c.check(kinds == ['MARKER', 'TEXT'] or set(kinds) == {'MARKER', 'TEXT'}, h, tests[0].ast if tests else None, 'the helper recognises the markers and text',
-            witness=str([norm(t.ast) for t in tests]), kind='ast', tag='exact-kinds')
-    for t, k in zip(tests, kinds):
-        rr = [r for r in guard_region(hg, t, 'true') if r.kind == 'stmt' and isinstance(r.ast, ast.Return)]
-        if k == 'MARKER':
-            c.check(len(rr) == 1 and is_name(rr[0].ast.value, pv), h, t.ast, 'markers are returned as they are', kind='path', tag='exact-marker')
-        elif k == 'TEXT':
-            ok = len(rr) == 1 and isinstance(rr[0].ast.value, ast.Call) and callee_last(rr[0].ast.value) == '_coerce_expect_string'
-            c.check(ok, h, t.ast, 'text is coerced to the object\'s string type', kind='path', tag='exact-text')
+    # every return of the helper, with the kinds of pattern it is taken for (path conditions, whatever the chain of tests looks like)
+    seen = set()
+    for r in returns(h):
+        ks = set(classify_atom(a, pv) for a, v in conditions(hg, r) if v) - {None}
+        v_ = r.ast.value
+        if is_name(v_, pv):
+            seen |= ks
+            c.check(bool(ks) and ks <= {'EOF', 'TIMEOUT'}, h, r.ast, 'only the markers EOF / TIMEOUT are returned as they are', witness=str(sorted(ks)), kind='path', tag='exact-marker:%s' % '+'.join(sorted(ks)))
+        elif isinstance(v_, ast.Call) and callee_last(v_) == '_coerce_expect_string':
+            seen |= ks
+            c.check(ks == {'TEXT'}, h, r.ast, 'text is coerced to the object\'s string type', witness=str(sorted(ks)), kind='path', tag='exact-text')
+        else:
+            c.bad(h, r.ast, 'the helper returns something that is neither the marker nor the coerced text', witness=norm(r.ast), kind='path', tag='exact-other')
+    c.check(seen == {'EOF', 'TIMEOUT', 'TEXT'}, h, None, 'the helper recognises the markers and text', witness=str(sorted(seen)), kind='path', tag='exact-kinds')
     falls = [p for p, l in hg.exit.pred if not (p.kind == 'stmt' and isinstance(p.ast, ast.Return))]
     lastcalls = [p for p, l in hg.raise_exit.pred if p.kind == 'stmt' and isinstance(p.ast, ast.Expr) and isinstance(p.ast.value, ast.Call)
                  and callee_last(p.ast.value) == '_pattern_type_err']
     c.check(not falls and len(lastcalls) == 1, h, None, 'anything else ends in the TypeError helper (the helper never falls off the end)', kind='path', tag='exact-else')
     # single-pattern wrap and iterability
-    tw = [t for t in g.nodes if t.kind == 'test' and isinstance(t.ast, ast.BoolOp) and isinstance(t.ast.op, ast.Or) and
-          sorted(norm(v) for v in t.ast.values) in (sorted(['isinstance(%s, self.allowed_string_types)' % pl, '%s in (TIMEOUT, EOF)' % pl]),
-                                                   sorted(['isinstance(%s, self.allowed_string_types)' % pl, '%s in (EOF, TIMEOUT)' % pl]))]
-    w = [n for t in tw for n in guard_region(g, t, 'true') if n.kind == 'stmt' and isinstance(n.ast, ast.Assign) and norm(n.ast.value) == '[%s]' % pl]
-    c.check(len(tw) == 1 and len(w) == 1, f, tw[0].ast if tw else None, 'a single string or marker is wrapped in a one-element list', kind='path', tag='exact-wrap')
+    # the wrap [p] happens exactly for: a string, EOF, TIMEOUT  (one test with `or`, or separate tests each wrapping)
+    w = [n for n in g.nodes if n.kind == 'stmt' and isinstance(n.ast, ast.Assign) and norm(n.ast.value) == '[%s]' % pl and pl in assigned_names(n.ast)]
+    wk = set()
+    conj = False
+    for n in w:
+        per_test = []
+        for t_, outcome in path_tests(g, n):
+            co, lab = truth(t_)
+            pos = (lab == 'true') == outcome
+            parts = co.values if (isinstance(co, ast.BoolOp) and isinstance(co.op, ast.Or) and pos) else [co]
+            ks = set()
+            for p_ in parts:
+                a_, v_ = atom_key(p_, pos)
+                if classify_atom(a_, pl):
+                    ks.add((classify_atom(a_, pl), v_))
+            if ks:
+                per_test.append(ks)
+        if len(per_test) != 1 or any(not v_ for k_, v_ in per_test[0]):
+            conj = True         # the wrap depends on more than one kind test at once (a conjunction), or on a negated one
+        for ks in per_test:
+            wk |= set(k_ for k_, v_ in ks if v_)
+    c.check(bool(w) and not conj and wk == {'TEXT', 'EOF', 'TIMEOUT'}, f, w[0].ast if w else None, 'a single string or marker is wrapped in a one-element list',
+            witness='wrapped when the argument is %s' % sorted(wk), kind='path', tag='exact-wrap')
     # the argument is not replaced by anything else before it is validated
     for n in g.nodes:
         if n.kind == 'stmt' and isinstance(n.ast, (ast.Assign, ast.AugAssign)) and pl in assigned_names(n.ast):
